@@ -19,14 +19,19 @@ RULE = ("exhaustive: every string of length <=5 (quick) / <=7 (thorough, sharded
         "columns 0. non-trivial = distinct case with at least one word")
 ASSUMPTIONS = ["columns >= 1 (columns = 0 is a ZeroDivisionError in the library: tie-checked only)",
                "str arguments contain no ESC (fmtstr(str) would parse them; covered by C17)",
-               "whitespace = the regex class \\s of the live `re` module (read per run for the code points used)"]
+               "whitespace = the regex class \\s of the live `re` module (read per run for the code points used)",
+               "attribute dicts are well-formed as parse_args leaves them: only the 8 legal keys (fg, bg, bold, dark, italic, "
+               "underline, blink, invert), colours fg in 30..37 / bg in 40..47, styles True/False - the model's `Atts` record "
+               "cannot represent anything else and the wire codec refuses it (Unencodable -> the run fails, never guesses)"]
 
 LEVEL_NOTE = ("FULL PROOF: C16_full proves the whole statement for every Unicode environment and run layout (words/gaps = maximal "
               "runs of the per-character view, greedy fit rule, chopping into full-length pieces, one joining space carrying "
               "the attributes common to the whole gap), with plain-terms corollaries C16_len, C16_total, C16_wordless, "
               "C16_clean_lines, C16_words_kept. Trusted: Lean kernel + propext/Classical.choice/Quot.sound, the hand-written "
               "model (tied to /repo by the exhaustive per-run correspondence), the wire codec; CPython `re` (`\\s+` = maximal "
-              "runs of \\s characters) is modelled, its character class is read live per run")
+              "runs of \\s characters) is modelled, its character class is read live per run. A plain `str` argument is first turned "
+              "into a FmtStr by fmtstr(str) (escape parsing = property C17): that path is covered by the correspondence and "
+              "the oracle only (op linesplit_str: ESC-free strings, incl. Unicode whitespace), the theorems start from the FmtStr")
 ALPHA = ("a", "b", " ", "\t", "\n")
 PA = {"fg": 31, "bold": True}
 PB = {"fg": 31, "underline": True}
@@ -69,6 +74,17 @@ def extra_cases(ctx):
         for columns in (1, 2, 3):
             extra.append(dict(op="linesplit_str", f=[(s, {})], columns=columns))
         extra.append(dict(op="linesplit", f=[(s, dict(PA))], columns=0))
+    # plain-str arguments: longer strings with ASCII and Unicode whitespace (NBSP, IDEOGRAPHIC SPACE, LINE SEPARATOR,
+    # NEL, FS/US, ZERO WIDTH SPACE which is NOT whitespace)
+    ws_str = [" ", "\t", "\n", "\u00a0", "\u3000", "\u2028", "\u2029", "\x85", "\x1c", "\x1f", "\u202f", "\u200b", "\ufeff"]
+    for _ in range(4000 if ctx.thorough else 1200):
+        n = r.randint(4, 30)
+        s = "".join(r.choice(ws_str) if r.random() < 0.35 else r.choice("abcdé\uff25") for _ in range(n))
+        extra.append(dict(op="linesplit_str", f=[(s, {})], columns=r.randint(1, 8)))
+    for w in ws_str:
+        for s in ("a" + w + "b", w + "ab" + w, "ab" + w + w + "cd" + w + "e", w, "abc" + w + "de fgh" + w + "i"):
+            for columns in (1, 2, 3, 5, 7):
+                extra.append(dict(op="linesplit_str", f=[(s, {})], columns=columns))
     for s in all_strings(4 if ctx.thorough else 3):
         for ch in layouts_for(s)[:2]:
             for spec in shared_variants(ch, other=[(" ", dict(PC))]):
